@@ -90,7 +90,8 @@ func (this *Item) action(sym string, nextState int) action.Action {
 }
 
 func (this *Item) canRecover() bool {
-	return this.Len > 0 && this.Body[0] == "error"
+	// only a state with the dot in front of the error symbol can shift it
+	return this.Len > 0 && this.Pos == 0 && this.Body[0] == "error"
 }
 
 // Equals weturns whether two Items are equal based on their ProdIdx, Pos and NextToken.
